@@ -262,11 +262,19 @@ pub fn render(items: &[Item]) -> Rendered {
             Item::Plugins { modules, .. } => {
                 // the spelling is a function of the content (list, tuple, bare string, annotated assignment)
                 let q: Vec<String> = modules.iter().map(|m| format!("\"{}\"", m)).collect();
-                let form = modules.iter().map(|m| m.len()).sum::<usize>() % 5;
+                let form = modules.iter().map(|m| m.len()).sum::<usize>() % 8;
                 match form {
                     0 => w.ln(&format!("pytest_plugins = ({},)", q.join(", "))),
                     1 if modules.len() == 1 => w.ln(&format!("pytest_plugins = {}", q[0])),
+                    // one string: pytest splits it at commas
+                    1 => w.ln(&format!("pytest_plugins = \"{}\"", modules.join(", "))),
                     2 => w.ln(&format!("pytest_plugins: list[str] = [{}]", q.join(", "))),
+                    // built in two steps
+                    5 if modules.len() >= 2 => {
+                        w.ln(&format!("pytest_plugins = [{}]", q[0]));
+                        w.ln(&format!("pytest_plugins += [{}]", q[1..].join(", ")));
+                    }
+                    6 if modules.len() >= 2 => w.ln(&format!("pytest_plugins = [{}] + [{}]", q[0], q[1..].join(", "))),
                     _ => w.ln(&format!("pytest_plugins = [{}]", q.join(", "))),
                 }
             }
